@@ -186,6 +186,60 @@ class Delta:
         return out
 
 
+
+def additive_terms(fn: FunctionInfo, e: ast.AST | None):
+    """The value of `e` as a sum of terms, whatever way it is accumulated:
+    `a + sum(f(x) for x in C)`, or `v = a` followed by `for x in C: v += f(x)`.
+    Terms: ("len", coll) | ("sum", coll, elt with `_`) | ("expr", text);
+    None when not understood."""
+    def expr_terms(x: ast.AST):
+        if isinstance(x, ast.BinOp) and isinstance(x.op, ast.Add):
+            a, b = expr_terms(x.left), expr_terms(x.right)
+            return None if a is None or b is None else a + b
+        if isinstance(x, ast.Call) and isinstance(x.func, ast.Name) and \
+                x.func.id == "len" and len(x.args) == 1:
+            return [("len", ast.unparse(x.args[0]))]
+        if isinstance(x, ast.Call) and isinstance(x.func, ast.Name) and \
+                x.func.id == "sum" and len(x.args) == 1 and isinstance(
+                    x.args[0], (ast.GeneratorExp, ast.ListComp)) and \
+                len(x.args[0].generators) == 1 and \
+                not x.args[0].generators[0].ifs and isinstance(
+                    x.args[0].generators[0].target, ast.Name):
+            g = x.args[0].generators[0]
+            elt = ast.unparse(x.args[0].elt).replace(g.target.id + ".", "_.")
+            return [("sum", ast.unparse(g.iter), elt)]
+        if isinstance(x, ast.Constant) and x.value == 0:
+            return []
+        return [("expr", ast.unparse(x))]
+
+    if e is None:
+        return None
+    if not isinstance(e, ast.Name):
+        return expr_terms(e)
+    name = e.id
+    inits = [n for n in fn.body_nodes() if isinstance(n, (ast.Assign,
+                                                          ast.AnnAssign))
+             and dotted(n.targets[0] if isinstance(n, ast.Assign)
+                        else n.target) == name and n.value is not None]
+    if len(inits) != 1 or isinstance(parent(inits[0]), (ast.For, ast.While,
+                                                        ast.If)):
+        return None
+    out = expr_terms(inits[0].value)
+    if out is None:
+        return None
+    for n in fn.body_nodes():
+        if isinstance(n, ast.AugAssign) and dotted(n.target) == name:
+            lp = parent(n)
+            if not (isinstance(n.op, ast.Add) and isinstance(lp, ast.For) and
+                    len(lp.body) == 1 and not lp.orelse and isinstance(
+                        lp.target, ast.Name) and
+                    not isinstance(parent(lp), (ast.For, ast.While, ast.If))):
+                return None
+            elt = ast.unparse(n.value).replace(lp.target.id + ".", "_.")
+            out.append(("sum", ast.unparse(lp.iter), elt))
+    return out
+
+
 def list_writers(ctx: Context):
     """Functions that write number_of_examples / shard_files / children of
     a ShardsList-typed expression, with the tracked object expression."""
@@ -294,25 +348,13 @@ def run(ctx: Context, rep) -> None:
     def resolve(e):
         return defs.get(e.id, e) if isinstance(e, ast.Name) else e
 
-    ns = resolve(kw.get("number_of_shards"))
-    ok_ns = False
-    if isinstance(ns, ast.BinOp) and isinstance(ns.op, ast.Add):
-        parts = [ns.left, ns.right]
-        has_len = any(ast.unparse(p) == "len(self.shard_files)" for p in parts)
-        has_sum = False
-        for p in parts:
-            if isinstance(p, ast.Call) and isinstance(p.func, ast.Name) and \
-                    p.func.id == "sum" and len(p.args) == 1 and isinstance(
-                        p.args[0], (ast.GeneratorExp, ast.ListComp)):
-                g = p.args[0]
-                gen = g.generators[0]
-                has_sum = len(g.generators) == 1 and not gen.ifs and \
-                    ast.unparse(gen.iter) == "self.children_shard_lists" and \
-                    isinstance(g.elt, ast.Attribute) and g.elt.attr == \
-                    "number_of_shards" and dotted(g.elt.value) == dotted(gen.target)
-        ok_ns = has_len and has_sum
+    ns = kw.get("number_of_shards")
+    terms = additive_terms(wc, ns)
+    ok_ns = terms is not None and sorted(terms) == sorted([
+        ("len", "self.shard_files"),
+        ("sum", "self.children_shard_lists", "_.number_of_shards")])
     rep.ob("C04.count", ok_ns, loc=wc.loc(ctor[0]), where=wc.qualname,
-           construct=f"number_of_shards = {short(ns, 100)}",
+           construct=f"number_of_shards = {terms}",
            message="own shards plus every child's recorded shard count")
     rep.ob("C04.count", ast.unparse(resolve(kw.get(N)) or ast.Constant(0)) ==
            f"self.{N}", loc=wc.loc(ctor[0]), where=wc.qualname,
